@@ -332,7 +332,7 @@ func init() {
 	str.typ = reflect.TypeOf("")
 	add(str)
 
-	for _, sz := range []int{1, 3, 5} {
+	for _, sz := range []int{1, 3, 5, 300} {
 		sz := sz
 		b := &encSpec{name: fmt.Sprintf("Bytes%d", sz), enc: encode.Bytes{Size: sz}, width: sz}
 		b.value = func(p []byte) interface{} { return pad(p, sz) }
@@ -362,7 +362,7 @@ func init() {
 	add(du)
 }
 
-var fixedEncNames = []string{"I8", "I16", "I32", "I64", "U16", "U32", "U64", "Int", "Bytes1", "Bytes3", "Bytes5", "TypeEnc"}
+var fixedEncNames = []string{"I8", "I16", "I32", "I64", "U16", "U32", "U64", "Int", "Bytes1", "Bytes3", "Bytes5", "Bytes300", "TypeEnc"}
 var allEncNames = append(append([]string{}, fixedEncNames...), "String16", "Dummy")
 
 func (c *Case) spec() *encSpec {
